@@ -51,7 +51,7 @@ class blockiterator(object):
             if len(lastb)>0:
                 self.bitcnt = 0
                 yield lastb
-        else:
+        elif len(Pi)>0:
             assert nc==bitlen
             self.bitcnt = start+nc
             yield Pi
